@@ -79,6 +79,7 @@ type Outcome struct {
 	Notes      []string // observe-only remarks, never violations
 	Execs      int      // executions of the real code (default 1)
 	Skipped    string   // non-empty: case could not be judged (e.g. library panicked in a non-C01 check)
+	Truncated  bool     // the case's own exploration was cut short by the deadline
 }
 
 func (o *Outcome) V(sig, f string, a ...any) {
@@ -106,6 +107,12 @@ type Prop struct {
 }
 
 var Registry = map[string]*Prop{}
+
+// Deadline is the wall-clock backstop of the running worker (zero = none). Hitting it never
+// produces a violation: exploration stops and the run is reported as not exhaustive.
+var Deadline time.Time
+
+func TimeUp() bool { return !Deadline.IsZero() && time.Now().After(Deadline) }
 
 // Tier is the tier of the running check ("quick" or "thorough").
 var Tier = "quick"
@@ -206,6 +213,7 @@ func (w *Worker) Run() {
 	w.Sum = NewSummary()
 	w.seen = map[[16]byte]struct{}{}
 	w.Sum.Complete = true
+	Deadline = w.Deadline
 	if w.P.Custom != nil {
 		w.P.Custom(w)
 		return
@@ -323,6 +331,10 @@ func (w *Worker) Record(c *Case, o *Outcome) {
 	s.Execs += int64(o.Execs)
 	if o.Skipped != "" {
 		s.Skipped[o.Skipped]++
+	}
+	if o.Truncated {
+		s.Complete = false
+		s.Skipped["exploration of one case cut short by the deadline"]++
 	}
 	if o.Nontrivial {
 		s.Nontrivial++
